@@ -160,7 +160,9 @@ def cs_enum(name):
     except LookupError:
         return 'unknown'
     except UnicodeError:
-        pass
+        pass                             # a real codec that rejects this input
+    except ValueError:
+        return 'unknown'                 # e.g. a NUL inside the name
     try:
         return CS_ENUM[codecs.lookup(name).name]
     except KeyError:
@@ -232,10 +234,17 @@ def _get_app(qs_enc, attempt_cfg):
     return _apps[key]
 
 
+CTYPE_STYLES = {
+    'plain': '%s; charset=%s', 'quoted': '%s; charset="%s"', 'nospace': '%s;charset=%s',
+    'spaced': '%s ;  charset=%s ', 'param-case': '%s; Charset=%s', 'extra-param': '%s; boundary=x; charset=%s',
+    'trailing-param': '%s; charset=%s; q=0.5',
+}
+
+
 def ctype_of(case):
     cs = case.get('declared')
     base = 'application/x-www-form-urlencoded'
-    return base if cs is None else '%s; charset=%s' % (base, cs)
+    return base if cs is None else CTYPE_STYLES[case.get('ctype_style', 'plain')] % (base, cs)
 
 
 def run_real(case):
@@ -358,7 +367,7 @@ def oracle_body(b, attempts):
     for cs in attempts:
         try:
             return [(k.decode(cs), v.decode(cs)) for k, v in raw]
-        except (UnicodeDecodeError, LookupError):   # a charset nobody knows decodes nothing
+        except (LookupError, ValueError):           # undecodable, or a charset nobody knows (decodes nothing)
             continue
     return REFUSED
 
@@ -643,7 +652,7 @@ def gen_request(rng, big=False):
             scenario = 'default'
         elif body_cs in ('utf-8', 'ascii') and r < 0.7:
             scenario = 'declared-unknown'            # LookupError counts as a failed attempt: utf-8 is next
-            case['declared'] = rng.choice(['nosuch', 'x-user-defined', 'hex', 'rot13'])
+            case['declared'] = rng.choice(['nosuch', 'x-user-defined', 'hex', 'rot13', 'utf\x008'])
         elif r < 0.85:
             scenario = 'fallback'
             pre = rng.choice([['ascii'], ['us-ascii', 'utf-8'], ['utf-8'], []])
@@ -655,6 +664,8 @@ def gen_request(rng, big=False):
             case['declared'] = rng.choice(NAMES[other])
             truth_known = False
     case['scenario'] = scenario
+    if case['declared'] is not None and rng.random() < 0.3:
+        case['ctype_style'] = rng.choice(sorted(CTYPE_STYLES))
     if truth_known:
         case['truth'] = [list(p) for p in truth_q + truth_b]
     case['qfrags'] = [f.hex() for f in qfrags]
@@ -778,8 +789,8 @@ def nontrivial(case):
 
 
 def case_key(case):
-    return '%s|%s|%s|%s|%s|%s' % (case['q'], case.get('b'), case.get('qs_enc'), case.get('declared'),
-                                  case.get('attempt_cfg'), case.get('method'))
+    return '%s|%s|%s|%s|%s|%s|%s' % (case['q'], case.get('b'), case.get('qs_enc'), case.get('declared'),
+                                     case.get('attempt_cfg'), case.get('method'), case.get('ctype_style'))
 
 
 def slim(case):
